@@ -794,3 +794,31 @@ def gzip_consumes_payload(chk, P, key):
             raise mir.AnchorMissing("the emptiness test of the chunk loop in HttpContent::gzip")
         return True, "", [wa[0].loc, adv[0].loc]
     chk.ob(key, "compression feeds every chunk of the payload to the encoder and stops only at the empty chunk", f)
+
+
+# ---- C12: the endpoint URL is base + path with exactly one `/` between them ---------------------------------------------------------------------
+
+def url_join_one_separator(chk, P, key):
+    """OtlpTransportBuilder::build joins the configured base URL and the signal's path: a `/` is inserted only when the base does not end with one *and*
+    the path does not start with one.  Either test alone (`||`) yields `http://host:4318//v1/logs` for the documented configuration, which collectors
+    answer with 404: every request fails, nothing is ever acknowledged."""
+    def f():
+        b = P.body("emit_otlp::client::OtlpTransportBuilder::build")
+        pushes = [c for c in b.calls(normal_only=True) if c.callee.get("name") == "push" and "String" in (c.callee.get("full") or c.callee.get("path") or "")
+                  and (mir.o_const_value(b.origin(c.args[1])) in ("/", 47) or "'/'" in o_str(b.origin(c.args[1])) or "char" in str(b.origin(c.args[1])))]
+        if not pushes:
+            raise mir.AnchorMissing("the separator push of OtlpTransportBuilder::build")
+        for c in pushes:
+            need = {"ends_with": False, "starts_with": False}
+            for g, vals, tgt in b.guards_of(c.bb):
+                so, pos = mir.norm_bool(b.switch_origin(g))
+                if so[0] == "call" and so[1].callee.get("name") in need:
+                    taken = ("0" not in [str(v) for v in vals]) == pos
+                    if taken:
+                        return False, "a separator is inserted although %s() holds" % so[1].callee.get("name"), [], c.loc
+                    need[so[1].callee.get("name")] = True
+            if not all(need.values()):
+                return False, ("the `/` between base URL and path is inserted without both tests having failed (%s not established on every way to it): "
+                               "`http://host:4318` + `/v1/logs` becomes `http://host:4318//v1/logs`" % [k_ for k_, v_ in need.items() if not v_]), [], c.loc
+        return True, "", [c.loc for c in pushes]
+    chk.ob(key, "base URL and path are joined with exactly one `/`", f)
